@@ -189,6 +189,15 @@ def run_zero(spec):
     if r is None:
         return out
     ph, ph0, Z, eps, rng, fc, dscale = r
+    if spec.get("prior"):
+        # history variant: the object first carried non-zero charges and was used, then receives Z = 0
+        Z1, eps1 = sym_nac(ph.primitive, rng_from(spec["key"], 7))
+        ph.nac_params = {"born": Z1, "dielectric": eps1, "factor": spec["factor"], "method": spec["method"]}
+        dscale += 4 * np.pi / abs(np.linalg.det(ph.primitive.cell)) * spec["factor"] * np.abs(Z1).max() ** 2 / \
+            np.linalg.eigvalsh(eps1).min() / ph.primitive.masses.min()
+        _D(ph, [0.1, 0.2, 0.3])
+        _D(ph, [0, 0, 0], [1, 0, 0])
+        ph.nac_params = {"born": Z.copy(), "dielectric": eps.copy(), "factor": spec["factor"], "method": spec["method"]}
     q = rng.normal(size=3)
     n = _direction(spec, rng)
     worst = 0
@@ -199,11 +208,15 @@ def run_zero(spec):
         worst = max(worst, e)
         if e > 1e-9:
             return Out(ok=False, msg="zero Born charges (%s) still change D at q=%s: %.3e" % (spec["method"], qq.tolist(), e))
-    return Out(ok=True, nontrivial=True, classes=[spec["method"], "compact" if spec["compact"] else "full"], info={"err": worst})
+    return Out(ok=True, nontrivial=True, classes=[spec["method"], "compact" if spec["compact"] else "full",
+                                                  "after_prior_nac" if spec.get("prior") else "fresh"], info={"err": worst})
 
 
-def _polar(b):
-    return True
+@st.composite
+def zero_specs(draw, tier):
+    b = draw(base(tier))
+    b["prior"] = draw(st.booleans())
+    return b
 
 
 SUBCHECKS = [
@@ -213,7 +226,7 @@ SUBCHECKS = [
     Sub("commensurate", run=run_commensurate, strategy=base, examples={"quick": 300, "thorough": 10000},
         shards={"quick": 8, "thorough": 16}, budget={"quick": 110, "thorough": 1800},
         what="correction vanishes at commensurate q != 0 (wang: any representative; gonze: interior representative)"),
-    Sub("zero_born", run=run_zero, strategy=base, examples={"quick": 200, "thorough": 6000},
+    Sub("zero_born", run=run_zero, strategy=zero_specs, examples={"quick": 200, "thorough": 6000},
         shards={"quick": 4, "thorough": 16}, budget={"quick": 110, "thorough": 1800},
         what="Z = 0 makes the correction a no-op at every q"),
 ]
